@@ -1,3 +1,403 @@
 (** C19 — update_file converges to the published content and never corrupts the
-    local file.  (statements follow; being built) *)
-From Verif Require Import Lib.Base Pdiff.Update Pdiff.UpdateSpec.
+    local file.  Only statements; every proof is [exact <lemma>] from
+    Pdiff/UpdateProofs.v.
+
+    Model: Pdiff/Update.v (the functions UpdateCheck.agree runs), instantiated
+    exactly as the check instantiates it (py_isspace, py_islinebreak, re_d,
+    nd_val); the hash [H] is universally quantified in every theorem.
+    Spec: Pdiff/UpdateSpec.v — Part 1 is what UpdateCheck.holds evaluates, Part 2
+    says what "a repository publishes a pdiff index for a history" means. *)
+From Coq Require Import String.
+From Verif Require Import Lib.Base Lib.Dec Lib.PyStr Gen.PyChars
+  Pdiff.Ed Pdiff.EdSpec Pdiff.EdProofs Pdiff.EdInst
+  Pdiff.Update Pdiff.UpdateSpec Pdiff.UpdateCheck Pdiff.UpdateProofs.
+
+(** The model as the check runs it. *)
+Definition update_file_py (H : hkind -> list str -> str) :=
+  update_file py_isspace py_islinebreak re_d nd_val H.
+Definition publishes_py := publishes py_isspace py_islinebreak.
+
+(** * 1. update_fault_safe
+
+    For EVERY hash, EVERY environment (whatever the index, the patches and the
+    full file are: intact, corrupted, truncated, missing, lying), EVERY local
+    state and EVERY fault schedule (open, i-th write, close, rename, unlink):
+    either the call returns lines and the local file holds exactly those lines,
+    with no '.new' left — or it raises, the local file is exactly as before, and
+    '.new' is gone (unless removing it was itself scheduled to fail). *)
+Theorem C19_update_fault_safe :
+  forall H e fs sc,
+    f_new fs = None ->
+    let out := update_file_py H e fs sc in
+    match fst out with
+    | Ok ls => f_local (snd out) = Some ls /\ f_new (snd out) = None
+    | Err _ => f_local (snd out) = f_local fs
+               /\ (s_unlink sc = false -> f_new (snd out) = None)
+    end.
+Proof. exact (update_file_safe py_isspace py_islinebreak re_d nd_val). Qed.
+
+(** the same in the words of the Spec: the clause [holds] evaluates for a run
+    whose premise is void (verdict SafetyOnly), and the disjunction of the two
+    admissible outcomes in every other case *)
+Theorem C19_update_fault_safe_spec :
+  forall H e fs sc s,
+    f_new fs = None -> sn_local s = f_local fs -> sn_unlink s = s_unlink sc ->
+    let o := observe (update_file_py H e fs sc) in
+    returned_is_local o || failed_safely s o = true.
+Proof. exact (update_fault_safe_spec py_isspace py_islinebreak re_d nd_val). Qed.
+
+(** and tied to the check: on every case where [agree] holds, what the
+    IMPLEMENTATION did satisfies that clause *)
+Theorem C19_agree_implies_safe :
+  forall u, agree_update u = true ->
+    returned_is_local (observation_of u)
+    || failed_safely (scenario_of u) (observation_of u) = true.
+Proof. exact agree_implies_safe. Qed.
+
+(** * 2. update_converges
+
+    A repository publishes the history v0..vn ([versions v0 steps]: any number of
+    versions, each step any alignment of its two versions, i.e. any diff) through
+    an index [px] in any field order, with any extra fields and paragraphs, and
+    the patches and the full file are served as published.  The digest selected
+    by update_file separates the local content from the published versions
+    ([no_collision]: a boolean fact about n+1 digests).  With no fault scheduled,
+    from a local copy at ANY v_i, current, foreign ([Some] anything) or absent
+    ([None]): the call returns vn and the local file holds vn. *)
+Theorem C19_update_converges :
+  forall H e fs sc paras v0 steps px,
+    let k := choose_kind (concat paras) in
+    let vn := current (versions v0 steps) in
+    f_new fs = None ->
+    read_index py_isspace (e_index e) = Ok (IndexFields paras) ->
+    concat paras = px_fields px ->
+    hash_avail e k = true ->
+    publishes_py (prefix_of k) (H k) v0 steps px = true ->
+    patches_published e steps = true ->
+    full_published e vn = true ->
+    match f_local fs with
+    | Some local => no_collision (H k) local (versions v0 steps)
+    | None => true
+    end = true ->
+    no_faults sc = true ->
+    update_file_py H e fs sc = (Ok vn, mkfs (Some vn) None).
+Proof. exact update_converges_py. Qed.
+
+(** as [holds] judges it: the scenario obliges to converge, and the run does *)
+Theorem C19_update_converges_holds :
+  forall H e fs sc paras v0 steps px,
+    let k := choose_kind (concat paras) in
+    let vn := current (versions v0 steps) in
+    let s := mkscn (versions v0 steps) (f_local fs) IdxIntact [] false (s_eff sc) (s_unlink sc) in
+    f_new fs = None ->
+    read_index py_isspace (e_index e) = Ok (IndexFields paras) ->
+    concat paras = px_fields px ->
+    hash_avail e k = true ->
+    publishes_py (prefix_of k) (H k) v0 steps px = true ->
+    patches_published e steps = true ->
+    full_published e vn = true ->
+    match f_local fs with
+    | Some local => no_collision (H k) local (versions v0 steps)
+    | None => true
+    end = true ->
+    no_faults sc = true ->
+    verdict_of s = MustConverge
+    /\ property_holds s (observe (update_file_py H e fs sc)) = true.
+Proof. exact update_converges_spec_py. Qed.
+
+(** the index given as TEXT: a deb822 file ([index_lines]: paragraphs separated by a
+    blank line, continuation lines, " ." for an empty line) is read back by the
+    PackageFile model as exactly its fields ... *)
+Theorem C19_index_text_parses :
+  forall ps, index_text_ok py_isspace ps = true ->
+    parse_pf py_isspace (map Some (index_lines ps)) = Ok (map (map rf_field) ps).
+Proof. exact index_text_parses_py. Qed.
+
+(** ... so update_converges holds with the premise on the text of the Index file *)
+Theorem C19_update_converges_text :
+  forall H e fs sc rps v0 steps px,
+    let paras := map (map rf_field) rps in
+    let k := choose_kind (concat paras) in
+    let vn := current (versions v0 steps) in
+    f_new fs = None ->
+    e_index e = IdxLines (map Some (index_lines rps)) ->
+    index_text_ok py_isspace rps = true ->
+    concat paras = px_fields px ->
+    hash_avail e k = true ->
+    publishes_py (prefix_of k) (H k) v0 steps px = true ->
+    patches_published e steps = true ->
+    full_published e vn = true ->
+    match f_local fs with
+    | Some local => no_collision (H k) local (versions v0 steps)
+    | None => true
+    end = true ->
+    no_faults sc = true ->
+    update_file_py H e fs sc = (Ok vn, mkfs (Some vn) None).
+Proof. exact update_converges_text_py. Qed.
+
+(** * 3. update_unusable_index_downloads
+
+    absent, unparseable or structurally unusable index => exactly the full
+    download; and the full download, with no fault, converges (from any local
+    state). *)
+Theorem C19_download_converges :
+  forall e fs sc vn,
+    full_published e vn = true -> no_faults sc = true -> f_new fs = None ->
+    download_file e fs sc = (Ok vn, mkfs (Some vn) None).
+Proof. exact download_file_quiet. Qed.
+
+Theorem C19_unusable_index_absent :
+  forall H e fs sc,
+    e_index e = IdxAbsent -> update_file_py H e fs sc = download_file e fs sc.
+Proof. exact (update_index_absent py_isspace py_islinebreak re_d nd_val). Qed.
+
+Theorem C19_unusable_index_unparseable :
+  forall H e fs sc ls,
+    e_index e = IdxLines ls -> parse_pf py_isspace ls = Err ParseError ->
+    update_file_py H e fs sc = download_file e fs sc.
+Proof. exact (update_index_unparseable py_isspace py_islinebreak re_d nd_val). Qed.
+
+(** no -Current field of the selected kind anywhere in the index (D15, third form) *)
+Theorem C19_unusable_index_no_current :
+  forall H e paras fs sc,
+    let k := choose_kind (concat paras) in
+    read_index py_isspace (e_index e) = Ok (IndexFields paras) ->
+    hash_avail e k = true ->
+    field_count (f_current k) (concat paras) = 0%nat ->
+    update_file_py H e fs sc = download_file e fs sc.
+Proof. exact (update_file_no_current_downloads py_isspace py_islinebreak re_d nd_val). Qed.
+
+(** a -Current without exactly two columns, or a -History / -Patches line
+    without exactly three (D15, second form), reached before any -Current field *)
+Theorem C19_unusable_index_malformed_field :
+  forall H e paras pre f post fs sc,
+    let k := choose_kind (concat paras) in
+    read_index py_isspace (e_index e) = Ok (IndexFields paras) ->
+    hash_avail e k = true ->
+    concat paras = pre ++ f :: post ->
+    field_count (f_current k) pre = 0%nat ->
+    malformed_field py_isspace py_islinebreak k f = true ->
+    update_file_py H e fs sc = download_file e fs sc.
+Proof. exact (update_file_malformed_field_downloads py_isspace py_islinebreak re_d nd_val). Qed.
+
+(** an index that records the history, but whose -Patches field ([psteps]) lacks
+    the digest of a patch that would have to be applied (D15, first form) *)
+Theorem C19_unusable_index_missing_digest :
+  forall H e fs sc local paras v0 steps psteps px sfx,
+    let k := choose_kind (concat paras) in
+    let vn := current (versions v0 steps) in
+    f_local fs = Some local ->
+    read_index py_isspace (e_index e) = Ok (IndexFields paras) ->
+    concat paras = px_fields px ->
+    hash_avail e k = true ->
+    index_records py_isspace py_islinebreak (prefix_of k) (H k) v0 steps psteps px = true ->
+    no_collision (H k) local (versions v0 steps) = true ->
+    lines_eqb local vn = false ->
+    chain_from local v0 steps = Some sfx ->
+    existsb (fun s => negb (existsb (str_eqb (ps_name s)) (map ps_name psteps))) sfx = true ->
+    update_file_py H e fs sc = download_file e fs sc.
+Proof. exact update_missing_digest_downloads_py. Qed.
+
+(** * 4. update_fault_safe, with the premise of the property
+
+    Premise: every -Current field (of the kind update_file selects) records the
+    digest of vn, and the full file, if it can be fetched, is vn.  EVERYTHING else
+    is arbitrary: -History and -Patches (consistent, lying, absent), every patch
+    (intact, corrupted, truncated, missing), the local file, the fault schedule. *)
+
+(** a successful run returns — and by theorem 1 has stored — a content with the
+    digest recorded as current (no assumption on the hash) *)
+Theorem C19_update_success_is_current :
+  forall H e fs sc vn sep size ls,
+    index_current_honest py_isspace H e vn sep size = true -> full_honest e vn = true ->
+    fst (update_file_py H e fs sc) = Ok ls ->
+    H (kind_of py_isspace e) ls = H (kind_of py_isspace e) vn.
+Proof. exact (update_success_is_current py_isspace py_islinebreak re_d nd_val). Qed.
+
+(** hence, if nothing else has the digest of vn: success with local = returned =
+    vn and no '.new', or an error with the local file as before and no '.new' *)
+Theorem C19_update_fault_safe_converges :
+  forall H e fs sc vn sep size s,
+    f_new fs = None ->
+    index_current_honest py_isspace H e vn sep size = true -> full_honest e vn = true ->
+    (forall x, H (kind_of py_isspace e) x = H (kind_of py_isspace e) vn -> x = vn) ->
+    current (sn_hist s) = vn -> sn_local s = f_local fs -> sn_unlink s = s_unlink sc ->
+    let o := observe (update_file_py H e fs sc) in
+    converged s o || failed_safely s o = true.
+Proof. exact (update_fault_safe_converges_spec py_isspace py_islinebreak re_d nd_val). Qed.
+
+(** "writing fails at any point => an error is raised": when the local file is not
+    current, a fault among open / write_1..write_n / close / rename of the
+    replacement by vn always ends in the safe failure *)
+Theorem C19_update_write_fault_raises :
+  forall H e fs sc vn sep size s,
+    f_new fs = None ->
+    index_current_honest py_isspace H e vn sep size = true -> full_honest e vn = true ->
+    (forall x, H (kind_of py_isspace e) x = H (kind_of py_isspace e) vn -> x = vn) ->
+    match f_local fs with Some local => negb (lines_eqb local vn) | None => true end = true ->
+    fs_fault_certain vn (s_eff sc) = true ->
+    sn_local s = f_local fs -> sn_unlink s = s_unlink sc ->
+    let o := observe (update_file_py H e fs sc) in
+    failed_safely s o = true.
+Proof. exact (update_write_fault_fails_spec py_isspace py_islinebreak re_d nd_val). Qed.
+
+(** "a downloaded patch does not match the recorded hash => an error is raised":
+    in a publishing repository, local at some v_i (chain = the steps from the
+    first such i on), each patch of the chain either as published or bad
+    (missing / digest differs from the recorded one), at least one bad: the call
+    raises and nothing is touched. *)
+Theorem C19_update_garbled_patch_raises :
+  forall H e fs sc local paras v0 steps px sfx,
+    let k := choose_kind (concat paras) in
+    let vn := current (versions v0 steps) in
+    f_local fs = Some local ->
+    read_index py_isspace (e_index e) = Ok (IndexFields paras) ->
+    concat paras = px_fields px ->
+    hash_avail e k = true ->
+    publishes_py (prefix_of k) (H k) v0 steps px = true ->
+    no_collision (H k) local (versions v0 steps) = true ->
+    lines_eqb local vn = false ->
+    chain_from local v0 steps = Some sfx ->
+    forallb (fun s => patch_good e s || patch_bad (H k) e s) sfx = true ->
+    existsb (patch_bad (H k) e) sfx = true ->
+    exists x, update_file_py H e fs sc = (Err x, fs).
+Proof. exact update_garbled_patch_raises_py. Qed.
+
+(** * Non-vacuity
+
+    One concrete world: history v0 -> v1 -> v2 (a change in the middle; an insertion
+    at the top plus a deletion of the last two lines), an Index with two
+    paragraphs, an extra field, fields out of order, blank entries, irregular
+    spacing, and [injH] as digest — an injective function whose values are single
+    tokens (UpdateProofs §9), so that also the hash hypotheses are met. *)
+Module Ex.
+Local Open Scope string_scope.
+Definition l (c : N) : str := [c; 10%N].
+Definition v0 : list str := [l 97; l 98; l 99].
+Definition al0 : list seg := [Keep [l 97]; Hunk [l 98] [l 120; l 121]; Keep [l 99]].
+Definition al1 : list seg := [Hunk [] [l 122]; Keep [l 97; l 120]; Hunk [l 121; l 99] []].
+Definition s1 := mkstep (dec "T-1") (dec "6") (dec "14") false al0.
+Definition s2 := mkstep (dec "T-2") (dec "8") (dec "15") true al1.
+Definition steps : list pstep := [s1; s2].
+Definition v1 := [l 97; l 120; l 121; l 99].
+Definition v2 := [l 122; l 97; l 120].
+Definition Hk := injH SHA1.
+Definition rowh (v : list str) (s n : string) : str :=
+  (Hk v ++ dec " " ++ dec s ++ dec " " ++ dec n)%list.
+Definition hist_es : list str := [[]; rowh v0 "6" "T-1"; rowh v1 "8" "T-2"].
+Definition patch_es : list str :=
+  [rowh (ps_script s1) "14" "T-1"; []; rowh (ps_script s2) "15" "T-2"].
+(** the Index file as the network delivers it, line by line (hand-written:
+    two blanks and a TAB around the -Current value) *)
+Definition index_lines : list (option str) :=
+  map Some
+    ([dec "X-Origin: somewhere" ++ [10%N];
+      dec "SHA1-History:" ++ [10%N]]
+     ++ map (fun r => 32%N :: r ++ [10%N]) (tl hist_es)
+     ++ [dec "SHA1-Current:  " ++ Hk v2 ++ dec " 6" ++ [9; 10]%N;
+         [10%N];
+         dec "SHA1-Patches: " ++ nth 0 patch_es [] ++ [10%N];
+         dec " ." ++ [10%N];
+         32%N :: nth 2 patch_es [] ++ [10%N]])%list.
+Definition paras : list para :=
+  [[(dec "X-Origin", dec "somewhere"); (dec "SHA1-History", entries_value hist_es);
+    (dec "SHA1-Current", (Hk v2 ++ dec " 6")%list)];
+   [(dec "SHA1-Patches", entries_value patch_es)]].
+(** the same index as structured text *)
+Definition rparas : list (list rfield) :=
+  [[mkrf (dec "X-Origin") (dec "somewhere") [];
+    mkrf (dec "SHA1-History") [] (tl hist_es);
+    mkrf (dec "SHA1-Current") (Hk v2 ++ dec " 6")%list []];
+   [mkrf (dec "SHA1-Patches") (nth 0 patch_es []) [[]; nth 2 patch_es []]]].
+Definition px : pubindex := mkpidx (concat paras) (dec " ") (dec "6") hist_es patch_es.
+Definition served (garble2 : bool) (n : str) : result (list str) :=
+  if str_eqb n (dec "T-1") then Ok (ps_script s1)
+  else if str_eqb n (dec "T-2")
+       then Ok (if garble2 then removelast (ps_script s2) else ps_script s2)
+  else Err IOError.
+Definition e : env := mkenv true false true (IdxLines index_lines) (served false) (Ok v2).
+(** the second patch is served truncated *)
+Definition e_garbled : env := mkenv true false true (IdxLines index_lines) (served true) (Ok v2).
+(** an index whose -Patches field lacks the row of T-2 *)
+Definition px_short : pubindex :=
+  mkpidx [(dec "SHA1-Current", (Hk v2 ++ dec " 6")%list);
+          (dec "SHA1-History", entries_value hist_es);
+          (dec "SHA1-Patches", entries_value [nth 0 patch_es []])]
+         (dec " ") (dec "6") hist_es [nth 0 patch_es []].
+Definition e_short : env :=
+  mkenv true false true
+    (IdxLines (map Some (UpdateSpec.index_lines
+       [[mkrf (dec "SHA1-Current") (Hk v2 ++ dec " 6")%list [];
+         mkrf (dec "SHA1-History") [] (tl hist_es);
+         mkrf (dec "SHA1-Patches") (nth 0 patch_es []) []]])))
+    (served false) (Ok v2).
+Definition quiet : sched := mksched [] false.
+Definition at_v0 : fsstate := mkfs (Some v0) None.
+End Ex.
+
+(** hypotheses of update_converges / _holds / _text, for local = v0, v1, v2, foreign *)
+Example C19_nonvacuous_converges :
+  let k := choose_kind (concat Ex.paras) in
+  read_index py_isspace (e_index Ex.e) = Ok (IndexFields Ex.paras)
+  /\ k = SHA1 /\ hash_avail Ex.e k = true
+  /\ versions Ex.v0 Ex.steps = [Ex.v0; Ex.v1; Ex.v2]
+  /\ publishes_py (prefix_of k) (injH k) Ex.v0 Ex.steps Ex.px = true
+  /\ patches_published Ex.e Ex.steps = true
+  /\ full_published Ex.e Ex.v2 = true
+  /\ forallb (fun loc => no_collision (injH k) loc (versions Ex.v0 Ex.steps))
+       [Ex.v0; Ex.v1; Ex.v2; [[113; 10]%N]] = true
+  /\ no_faults Ex.quiet = true
+  /\ index_text_ok py_isspace Ex.rparas = true /\ map (map rf_field) Ex.rparas = Ex.paras
+  (* and what the model does there *)
+  /\ update_file_py injH Ex.e Ex.at_v0 Ex.quiet = (Ok Ex.v2, mkfs (Some Ex.v2) None).
+Proof. vm_compute. repeat split. Qed.
+
+(** hypotheses of the fault theorems and of the unusable-index theorems *)
+Example C19_nonvacuous_faults :
+  let k := SHA1 in
+  let write2 := mksched [false; false; true] false in
+  (* honest -Current, honest full file, the hash hypothesis *)
+  index_current_honest py_isspace injH Ex.e_garbled Ex.v2 (dec " ") (dec "6") = true
+  /\ full_honest Ex.e_garbled Ex.v2 = true
+  /\ kind_of py_isspace Ex.e_garbled = k
+  /\ (forall x, injH k x = injH k Ex.v2 -> x = Ex.v2)
+  (* a write fault while local is not current *)
+  /\ fs_fault_certain Ex.v2 (s_eff write2) = true
+  /\ update_file_py injH Ex.e Ex.at_v0 write2 = (Err IOError, Ex.at_v0)
+  (* a garbled patch in the chain *)
+  /\ chain_from Ex.v0 Ex.v0 Ex.steps = Some Ex.steps
+  /\ forallb (fun s => patch_good Ex.e_garbled s || patch_bad (injH k) Ex.e_garbled s) Ex.steps = true
+  /\ existsb (patch_bad (injH k) Ex.e_garbled) Ex.steps = true
+  /\ update_file_py injH Ex.e_garbled Ex.at_v0 Ex.quiet = (Err ValueError, Ex.at_v0)
+  (* unusable indexes *)
+  /\ parse_pf py_isspace [Some (dec " leading continuation")] = Err ParseError
+  /\ field_count (f_current k) [(dec "SHA1-History", [])] = 0%nat
+  /\ malformed_field py_isspace py_islinebreak k (dec "SHA1-Current", dec "abc") = true
+  /\ malformed_field py_isspace py_islinebreak k (dec "SHA1-History", dec "a b c d") = true
+  /\ read_index py_isspace (e_index Ex.e_short) = Ok (IndexFields [px_fields Ex.px_short])
+  /\ index_records py_isspace py_islinebreak (prefix_of k) (injH k) Ex.v0 Ex.steps [Ex.s1] Ex.px_short = true
+  /\ existsb (fun s => negb (existsb (str_eqb (ps_name s)) (map ps_name [Ex.s1]))) Ex.steps = true
+  /\ update_file_py injH Ex.e_short Ex.at_v0 Ex.quiet = (Ok Ex.v2, mkfs (Some Ex.v2) None).
+Proof.
+  cbv zeta. split; [vm_compute; reflexivity|]. split; [vm_compute; reflexivity|].
+  split; [vm_compute; reflexivity|]. split; [intros x; apply injH_inj|].
+  vm_compute. repeat split.
+Qed.
+
+Print Assumptions C19_update_fault_safe.
+Print Assumptions C19_update_fault_safe_spec.
+Print Assumptions C19_agree_implies_safe.
+Print Assumptions C19_update_converges.
+Print Assumptions C19_update_converges_holds.
+Print Assumptions C19_index_text_parses.
+Print Assumptions C19_update_converges_text.
+Print Assumptions C19_download_converges.
+Print Assumptions C19_unusable_index_absent.
+Print Assumptions C19_unusable_index_unparseable.
+Print Assumptions C19_unusable_index_no_current.
+Print Assumptions C19_unusable_index_malformed_field.
+Print Assumptions C19_unusable_index_missing_digest.
+Print Assumptions C19_update_success_is_current.
+Print Assumptions C19_update_fault_safe_converges.
+Print Assumptions C19_update_write_fault_raises.
+Print Assumptions C19_update_garbled_patch_raises.
